@@ -16,6 +16,7 @@ mod dispatch;
 mod saveload;
 mod joins;
 mod unwind;
+mod hibit;
 mod world_exec;
 
 use std::io::{BufRead, Write};
@@ -52,6 +53,7 @@ fn main() {
             "saveload" => saveload::run_history::<saveload::Simple>(&ints),
             "saveload-uuid" => saveload::run_history::<saveload::Uuid>(&ints),
             "unwind" => unwind::run_history(&ints),
+            "hibit" => hibit::run_case(&ints),
             d => panic!("unknown domain {}", d),
         };
         let parts: Vec<String> = tr
